@@ -234,13 +234,48 @@ func runC03(c *Ctx) {
 			}
 		})
 		r.Check("R03.2", "texttable/decoration.emitter", "horizontal run per column is width + 2*len(separator between slots and dividers)", ctl.Pos(), haveJ && K == int64(2*len(J)), fmt.Sprintf("K=%d, J=%q", K, J))
-		for _, f := range []*ssa.Function{ctl, crl} {
-			// appends inside the per-column loop: two unconditional-or-divider appends per iteration
-			nApp := 0
-			overCols := false
+		// sibling agreement: both builders add the same number of pieces per column, in the same idiom
+		type sig struct {
+			idiom       string
+			uncond, cnd int
+			overCols    bool
+		}
+		sigOf := func(f *ssa.Function) sig {
+			var sg sig
+			count := func(in ssa.Instruction, n int) {
+				if loopDepth(in.Block()) != 1 {
+					return
+				}
+				if condInsideLoop(in.Block()) {
+					sg.cnd += n
+				} else {
+					sg.uncond += n
+				}
+			}
 			eachInstr(f, func(in ssa.Instruction) {
-				if _, ok := isBuiltinCall(valueOf(in), "append"); ok && loopDepth(in.Block()) == 1 {
-					nApp++
+				if call, ok := isBuiltinCall(valueOf(in), "append"); ok {
+					n := 1
+					if _, elems, okE := appendedElems(call); okE && elems != nil {
+						n = len(elems)
+					}
+					if sg.idiom == "" || sg.idiom == "append" {
+						sg.idiom = "append"
+						count(in, n)
+					} else {
+						sg.idiom = "mixed"
+					}
+					return
+				}
+				if cc := callCommon(in); cc != nil && cc.StaticCallee() != nil {
+					fn := cc.StaticCallee()
+					if (fn.Name() == "WriteString" || fn.Name() == "WriteByte" || fn.Name() == "WriteRune" || fn.Name() == "Write") && (funcPkgPath(fn) == "strings" || funcPkgPath(fn) == "bytes") {
+						if sg.idiom == "" || sg.idiom == "builder" {
+							sg.idiom = "builder"
+							count(in, 1)
+						} else {
+							sg.idiom = "mixed"
+						}
+					}
 				}
 			})
 			pf := ix.proverFor(f)
@@ -249,13 +284,22 @@ func runC03(c *Ctx) {
 					for _, cs := range pf.condConstraints(iff.Cond, true) {
 						for t := range cs.e.coef {
 							if strings.Contains(t, "colWidths") && strings.HasPrefix(t, "len(") {
-								overCols = true
+								sg.overCols = true
 							}
 						}
 					}
 				}
 			})
-			r.Check("R03.2", FuncName(f), "appends one slot and one divider per column, looping over the column widths", f.Pos(), nApp == 2 && overCols, fmt.Sprintf("%d appends in the loop", nApp))
+			return sg
+		}
+		st, sr := sigOf(ctl), sigOf(crl)
+		switch {
+		case st.idiom == "" || sr.idiom == "" || st.idiom == "mixed" || sr.idiom == "mixed" || st.idiom != sr.idiom:
+			r.Note(fmt.Sprintf("shape-unrecognised R03.2: the rule-line builder (%s) and the content-line builder (%s) assemble their pieces in different ways; per-column piece agreement is not evaluated", st.idiom, sr.idiom))
+		default:
+			r.Check("R03.2", "texttable/decoration.emitter", "rule lines and content lines add the same number of pieces per column (one slot, one divider), looping over the column widths", ctl.Pos(),
+				st.uncond+st.cnd == sr.uncond+sr.cnd && st.uncond >= 1 && sr.uncond >= 1 && st.overCols && sr.overCols,
+				fmt.Sprintf("rule line: %d unconditional + %d conditional per iteration; content line: %d + %d", st.uncond, st.cnd, sr.uncond, sr.cnd))
 		}
 	}
 
@@ -279,6 +323,11 @@ func runC03(c *Ctx) {
 	}
 
 	checkEmitWidth(c, "R03.3")
+	// premise: the layout width (TerminalCellWidth) is the widest line measured in terminal cells, the same
+	// measure the emitter applies to each line it prints
+	if lines := c.Func("length", "Lines"); lines != nil {
+		importPremises(c, "R03.3", "cell-width premise: ", "the column is sized from this measure", nil, func() { c18LongestAll(c, lines, []string{"Cells"}) })
+	}
 
 	// ---- R03.4
 	need := map[string]bool{}
@@ -992,4 +1041,19 @@ func c04Padding(c *Ctx, wwa *ssa.Function, ws *types.Named) {
 		}
 	})
 	r.Check("R04.3", name, "an unset alignment is treated as left", wwa.Pos(), okNil, "")
+}
+
+// condInsideLoop: b (inside a loop) executes only under some condition tested inside that loop other than the
+// loop's own continuation test.
+func condInsideLoop(b *ssa.BasicBlock) bool {
+	hdr := innermostLoopHeader(b)
+	if hdr == nil {
+		return false
+	}
+	for _, cf := range dominatingConds(b) {
+		if cf.If.Block() != hdr && hdr.Dominates(cf.If.Block()) {
+			return true
+		}
+	}
+	return false
 }
